@@ -33,7 +33,9 @@ TNew ==
     /\ total' = SumOver(F(Ev.st.bal), Accts)
     /\ hist' = <<[a |-> "New", in |-> Ev.in, out |-> Ev.out, st |-> Ev.st]>>
 
-Matches == /\ hist'[1].out.res = Ev.out.res
+\* what C23 distinguishes: success, failure that charges the fee, rejection without effect (which rejection is not prescribed)
+Coarse(res) == IF res \in {"ok", "commit"} THEN res ELSE IF res = "insufficientFunds" THEN "failed-and-charged" ELSE "rejected"
+Matches == /\ Coarse(hist'[1].out.res) = Coarse(Ev.out.res)
            /\ bal' = F(Ev.st.bal) /\ nonce' = F(Ev.st.nonce) /\ exists' = F(Ev.st.exists) /\ fees' = Ev.st.fees
 
 TxOf(in) == [snd |-> in.snd, rcv |-> in.rcv, dn |-> in.nonce - nonce[in.snd], value |-> in.value, price |-> in.price,
